@@ -16,7 +16,7 @@ ASSUMPTIONS = [
     "calls (local dedup query, fragmentation decision, segment bookkeeping, xorb cut) are havocked: every outcome is considered",
     "counters do not overflow usize (the overflow checks of the dev profile are separate verification conditions on the same paths)",
 ]
-OUTSIDE = ["the client's own byte count per put (what it reports as transmitted) is taken as given", "task completion orders beyond: the snapshot is taken after every task was joined"]
+OUTSIDE = ["the client's own byte count per put (what it reports as transmitted) is taken as given", "task completion orders beyond: every upload task adds its bytes before it completes, and the snapshot is taken after every task was joined (the interleaving itself - tokio - is not explored)"]
 
 
 def metric_fields():
@@ -171,14 +171,27 @@ def build_session_merge(fns):
 def build_add_data(fns):
     """SingleFileCleaner::add_data: the blocks handed to add_data_impl tile the input exactly (loop step)."""
     f = mir.find_fn(fns, r"file_cleaner::.*add_data::\{closure#0\}$")
-    pos_place = f.debug["pos"][0]
+    pos_place = (f.debug.get("pos") or [None])[0]
     head = None
-    for bb in f.order:
+    for bb in (f.order if pos_place else []):
         stmts, term, cleanup = f.blocks[bb]
         if not cleanup and any(st.endswith("= copy " + pos_place) for st in stmts) and any("= Lt(" in st for st in stmts) and term.startswith("switchInt"):
             head = bb
     if head is None:
-        raise LookupError("block-splitting loop of add_data not found")
+        # no `while pos < len` loop: the only other splitting this check accepts is the std iterator whose contract is an exact
+        # tiling (`<[u8]>::chunks`: consecutive, non-overlapping, last block shorter, nothing dropped); anything else
+        # (chunks_exact, windows, step_by, ...) is posed as an open obligation and left to the native replay
+        from mirsym import modeb
+        g = modeb.CFG(f)
+        impl = g.blocks_calling(r"add_data_impl$")
+        tiling_iter = g.blocks_calling(r"core::slice::<impl \[u8\]>::chunks$|core::slice::<impl \[T\]>::chunks::<u8>$|<\[u8\]>::chunks$")
+        other_iter = g.blocks_calling(r"chunks_exact|rchunks|windows|step_by|array_chunks|split_at|::take$|::skip$")
+        sc = smt.Script("c14_add_data_tiling")
+        ok = bool(impl) and bool(tiling_iter) and not other_iter
+        sc.query("add_data splits its input with the explicit position loop or with `<[u8]>::chunks` (exact tiling by contract); found iterators: tiling=%s other=%s"
+                 % ([g.callee(b) for b in tiling_iter], [g.callee(b) for b in other_iter]), ["false"] if ok else ["true"])
+        sc.query("witness: add_data reaches add_data_impl", ["true"] if impl else ["false"], expect="sat", kind="witness")
+        return [sc]
     s = symex.Sym(f, prefix="ad.", models=symex.STD_MODELS, max_visits=1)
     paths = s.run(head, max_paths=2000)
     back = [p for p in paths if p.end == "bound" and len(p.trace) > 1]
